@@ -526,7 +526,7 @@ def eng_paging_walks(ctx):
                   triggers={"LT", "LS", "LTS"}, monitor=mon2)
     if out:
         return out
-    cases = seeded(gen.big_walk_cases(sizes=(1001, 2147483647) if not ctx.thorough else (1000, 1001, 5000, 10001, 2147483647)))
+    cases = seeded(gen.big_walk_cases(sizes=(1001, 2147483647, 250, 124) if not ctx.thorough else (1000, 1001, 5000, 10001, 2147483647, 250, 124, 31, 255)))
     return ctx.seq("paging-big", cases, relevant={"LT", "LS", "LTS"}, triggers={"LT", "LS", "LTS"}, monitor=M.mon_walk,
                    always_monitor=True)
 
@@ -950,7 +950,8 @@ def eng_subset_lists(mon, kinds):
 
 reg("C02", [eng_id_lists(M.mon_ack_final, ("ack", "sack", "sackmod")), eng_subset_lists(M.mon_ack_final, ("ack", "sack")), eng_data_enum(M.mon_ack_final, {"ACK"}),
             eng_data_random(M.mon_ack_final, {"ACK"}, streams=True, tag="data-stream-random"),
-            eng_stream_enum(M.mon_ack_final), eng_big_ack, lambda ctx: eng_datastress(ctx), lambda ctx: eng_abandon(ctx)],
+            eng_stream_enum(M.mon_ack_final), eng_big_ack, lambda ctx: eng_datastress(ctx), lambda ctx: eng_abandon(ctx),
+            lambda ctx: eng_late_ack(ctx)],
     rule="id-lists: Acknowledge (unary and streaming) with every id list of length 1..3 over {stale, live, live, unknown, "
          "oddly spelled live}, then expiry and drain; data-enum: every sequence over {pub, pub2, pull1, pullN, ack-last, ack-first, ack-unknown, nack, modify, +5.1s, +10.1s} "
          "up to the depth noted, STATS after every step, final drain; data-stream-random: random scripts with unary and "
@@ -963,7 +964,12 @@ reg("C02", [eng_id_lists(M.mon_ack_final, ("ack", "sack", "sackmod")), eng_subse
                "subscription. " + SEQ_NOTE,
     level_note="C02_final carries the hypotheses that the ids a subscription holds are distinct and that later posts "
                "never reuse the id; C02_ids_distinct discharges them along every server history whose per-topic message "
-               "counters stay below 2^32 (the u32 counter of the Rust).")
+               "counters stay below 2^32 (the u32 counter of the Rust). "
+               "What 'the call has returned' means is Model/ReqResp.v (every schedule of send / serve / receive / expiry: with the caller "
+               "waiting for the actor's answer the request is applied before the call returns); that the code's request methods "
+               "are send-then-recv is read off subscription.rs on every run (Gen/AckCheck.v against the generated suspension "
+               "points), and the late-ack stream moves the clock right after Acknowledge has returned.",
+    generated=[("call-waits-for-actor", lockgate.ack_gate, "AckCheck")])
 
 reg("C03", [eng_data_random(M.mon_exclusive, {"PULL"}, tag="data-random"),
             eng_data_random(M.mon_exclusive, {"SR", "PULL"}, streams=True, tag="data-stream-random"),
@@ -983,7 +989,8 @@ reg("C03", [eng_data_random(M.mon_exclusive, {"PULL"}, tag="data-random"),
                "(model structure), validated on the real server only with one request in flight at a time.")
 
 reg("C04", [eng_deadline_pure, eng_deadline_probes((None,), M.mon_deadline, "deadline-probes"),
-            eng_data_random(M.mon_deadline, {"PULL"}, tag="data-random"), eng_expiry_load],
+            eng_data_random(M.mon_deadline, {"PULL"}, tag="data-random"), eng_expiry_load,
+            lambda ctx: eng_expiry_with_backlog(ctx)],
     rule="expiry-load: 255..5000 leases running out at one instant while requests arrive at that moment, then a drain; "
          "deadline-pure: AckDeadline::new on every ms phase, sub-ms and sub-us offsets and random instants; "
          "deadline-probes: per hand-out phase and ack deadline, two coexisting leases probed 1 ms before, at and 1 ms "
@@ -1009,7 +1016,12 @@ reg("C05", [eng_id_lists(M.mon_deadline, ("nack", "mod", "sackmod")), eng_subset
     level_text="Proved: N classes for all integers; a modification of a live lease replaces its deadline by round(now+min(N,600)) "
                "or requeues it at once (N=0), touching nothing else; unknown ids are ignored; one malformed id or negative N "
                "rejects the whole request and changes nothing (unary and streaming). " + SEQ_NOTE,
-    level_note="As C04 for time.")
+    level_note="As C04 for time. "
+               "What 'the call has returned' means is Model/ReqResp.v (every schedule of send / serve / receive / expiry: with the caller "
+               "waiting for the actor's answer the request is applied before the call returns); that the code's request methods "
+               "are send-then-recv is read off subscription.rs on every run (Gen/AckCheck.v against the generated suspension "
+               "points), and the late-ack stream moves the clock right after Acknowledge has returned.",
+    generated=[("call-waits-for-actor", lockgate.ack_gate, "AckCheck")])
 
 def eng_push_late(ctx):
     return eng_push(ctx)
@@ -1039,7 +1051,7 @@ def eng_racing_namespace(ctx):
 
 reg("C10", [lambda ctx: eng_control_enum(ctx), eng_control_random(M.mon_namespace, {"CT", "CS"}, always=True), eng_names_echo,
             eng_racing_namespace, lambda ctx: eng_nsstress(ctx), lambda ctx: eng_grpcstress(ctx),
-            lambda ctx: eng_create_vs_delete_topic(ctx)],
+            lambda ctx: eng_create_vs_delete_topic(ctx), lambda ctx: eng_stale_topic_delete(ctx)],
     rule="random control-plane scripts over 2 projects x 3 topics x 4 subscriptions with deletions, re-creations, "
          "cross-project and malformed names, interleaved with data-plane calls; racing-namespace: two or three clients "
          "that each do create-then-get or delete-then-get on ONE name, started without letting the runtime settle "
@@ -1093,7 +1105,7 @@ def eng_cs_late(ctx):
 
 reg("C15", [eng_capacity, eng_data_random(M.mon_batch, {"PULL"}, streams=True, tag="data-stream-random"), eng_cs_late,
             lambda ctx: eng_big_chain(ctx), lambda ctx: eng_boundary_counts(ctx), lambda ctx: eng_orphan_wait(ctx),
-            lambda ctx: eng_woken_dropped(ctx)],
+            lambda ctx: eng_woken_dropped(ctx), lambda ctx: eng_wait_push_sub(ctx), lambda ctx: eng_big_pull(ctx)],
     rule="capacity: backlog sizes around 0/1/1000 (thorough: 65535/65536/65541) x max_messages around 1, 1000, 65535, "
          "65536 multiples, i32::MAX; stream-capacity likewise for max_outstanding_messages. non-trivial = non-empty response",
     monitor=M.mon_batch, title="Pull batches respect their size limit and are empty only when allowed", design_ref="7/C15",
@@ -1106,7 +1118,7 @@ reg("C15", [eng_capacity, eng_data_random(M.mon_batch, {"PULL"}, streams=True, t
                "sequential model (WaitP); " + "it is exercised on the real server by the wait streams of C06.")
 
 reg("C17", [eng_malformed, eng_names_pure, eng_codec_pure, lambda ctx: eng_boundary_counts(ctx),
-            lambda ctx: eng_control_shape(ctx)],
+            lambda ctx: eng_control_shape(ctx), lambda ctx: eng_registry_enum(ctx)],
     rule="malformed: per case a valid setup, then 3-8 requests each with one malformed field (names, ack ids, tokens, "
          "integers, push endpoints, inconsistent stream control messages with the bad element at a random position), STATS "
          "after each, then a health round trip and all listings. non-trivial = the health probe succeeded",
@@ -1325,6 +1337,14 @@ def eng_wait_enum(ctx):
     return ctx.seq("wait-enum", cases, relevant=WAIT_OPS, triggers={"SR", "JOIN"}, monitor=M.mon_wait)
 
 
+def eng_wait_push_sub(ctx):
+    """The waiting-consumer cases on a subscription that has a push endpoint (no push loop runs): Pull and StreamingPull
+    are served on it like on any other, and are woken like on any other."""
+    cases = gen.wait_enum_cases(prefix="wqp", endpoint=gen.hx("http://127.0.0.1:9/push"))
+    cases = cases[::7] if not ctx.thorough else cases[::2]
+    return ctx.seq("wait-push-sub", cases, relevant=WAIT_OPS, triggers={"SR", "JOIN"}, monitor=M.mon_wait)
+
+
 def eng_mixed_modify_wake(ctx):
     """One streaming control message that nacks some deliveries and extends others while consumers wait."""
     cases = [(c, gen.with_drain(o)) for c, o in gen.mixed_modify_wake_cases()]
@@ -1479,6 +1499,26 @@ def eng_cancel_woken(ctx):
     return ctx.seq("cancel-woken", cases, triggers={"JOIN"}, monitor=M.mon_wait, always_monitor=True, model_free=True)
 
 
+def eng_big_pull(ctx):
+    return ctx.seq("big-pull", gen.big_pull_cases(), relevant={"PULL", "STATS"}, triggers={"PULL"}, monitor=M.mon_pull_complete,
+                   always_monitor=True)
+
+
+def eng_expiry_with_backlog(ctx):
+    return ctx.seq("expiry-with-backlog", gen.expiry_with_backlog_cases(), relevant={"PULL", "STATS"}, triggers={"ADV"},
+                   monitor=M.mon_stats_lease, always_monitor=True)
+
+
+def eng_stale_topic_delete(ctx):
+    return ctx.seq("stale-topic-delete", gen.stale_topic_delete_cases(), triggers={"XDT"}, monitor=M.mon_topic_balance,
+                   always_monitor=True, model_free=True)
+
+
+def eng_late_ack(ctx):
+    return ctx.seq("late-ack", gen.late_ack_cases(range(ctx.n(8, 64))), triggers={"LACK"}, monitor=M.mon_late_ack,
+                   always_monitor=True, model_free=True)
+
+
 def eng_backed_up_stream(ctx):
     return ctx.seq("backed-up-stream", gen.backed_up_stream_cases(), triggers={"PUB"}, monitor=M.mon_backed_up,
                    always_monitor=True, model_free=True)
@@ -1491,7 +1531,7 @@ def eng_woken_dropped(ctx):
 
 
 reg("C06", [eng_wait_enum, eng_wait_random(M.mon_wait, {"SR", "JOIN"}), eng_cancel_woken, eng_woken_dropped,
-            eng_backed_up_stream, eng_cs, eng_big_chain, eng_mixed_modify_wake],
+            eng_backed_up_stream, eng_wait_push_sub, eng_cs, eng_big_chain, eng_mixed_modify_wake],
     rule="wait-enum: every combination of up to three waiting consumers (stream limit 1 / stream limit 10 / blocked "
          "Pull limit 1 / blocked Pull limit 5) x five sequences of availability events (publish 1/3/0, nack, expiry, "
          "ack), every consumer and STATS observed after each event; wait-random: random scripts with several "
@@ -1727,7 +1767,7 @@ def eng_concurrent_publish(ctx):
 
 reg("C08", [eng_data_random(M.mon_order, {"PUB"}, streams=True, tag="data-stream-random"),
             eng_data_enum(M.mon_order, {"PUB"}), eng_concurrent_publish,
-            eng_wait_random(M.mon_order, {"PUB"}), eng_orderstress, eng_requeue_order, eng_ordering_keys],
+            eng_wait_random(M.mon_order, {"PUB"}), eng_orderstress, eng_requeue_order, eng_ordering_keys, eng_big_pull],
     rule="random and exhaustive sequential scripts (ids, first deliveries, redeliveries out of order); "
          "concurrent-publish: 2-6 Publish calls to one topic started without letting the runtime settle (seeded), two "
          "subscriptions, one stream and pulls of several sizes, a nack in between - ids and first-delivery order are "
@@ -1781,7 +1821,12 @@ def eng_push(ctx):
     if out:
         return out
     # deletion in the middle of a page of the real loop (real time, no model: judged on the endpoint's record)
-    return ctx.seq("push-delete", gen.push_delete_cases(), triggers={"LOOPDEL"}, monitor=M.mon_push_delete,
+    out = ctx.seq("push-delete", gen.push_delete_cases(), triggers={"LOOPDEL"}, monitor=M.mon_push_delete,
+                  always_monitor=True, model_free=True)
+    if out:
+        return out
+    # the real loop and an endpoint that accepts later than one push interval
+    return ctx.seq("push-late-answer", gen.push_late_answer_cases(), triggers={"LOOP"}, monitor=M.mon_push_late_answer,
                    always_monitor=True, model_free=True)
 
 
